@@ -873,6 +873,10 @@ impl Engine {
         for b in &post.batches {
             if let Some(mb) = self.m.batches.get(&b.id).cloned() {
                 let code = status_code(&b.status);
+                if mb.status == 2 && (code != 2 || b.received != mb.received.unwrap_or(0)) && !mb.reqs.is_empty() {
+                    // a batch that has received its tokens stays claimable, with the amount it received, until everybody has withdrawn
+                    self.vo("C05", "received_batch_stays_claimable", format!("batch {} had received {:?} and still has {} unpaid requester(s), but is now recorded as status={} received={}", b.id, mb.received, mb.reqs.len(), b.status, b.received));
+                }
                 if code != mb.status || (mb.status <= 1 && b.next != mb.due) || b.expected != mb.expected.unwrap_or(0) || b.received != mb.received.unwrap_or(0) {
                     self.v("C06", "batch_fields", format!("batch {} is status={} next={} expected={} received={} but model has status={} due={} expected={:?} received={:?}", b.id, b.status, b.next, b.expected, b.received, mb.status, mb.due, mb.expected, mb.received));
                 }
